@@ -26,6 +26,7 @@ import (
 type c17Case struct {
 	Kind   string `json:"kind"` // "stream" | "handshake"
 	Frames []int  `json:"frames,omitempty"`
+	Texts  []int  `json:"texts,omitempty"` // Texts[k] > 0: a TEXT frame of that many bytes goes out before binary frame k (never part of the stream)
 	Sizes  []int  `json:"sizes,omitempty"`
 	Proto  string `json:"proto,omitempty"`
 }
@@ -132,7 +133,7 @@ func (p *c17Prop) Setup(tier string) error {
 
 func (p *c17Prop) Teardown() { _ = p.prov.Close() }
 
-var c17Protos = []string{"", "mqtt", "mqttv3.1", "mqttv3.1.1", "mqttV3.1.1", "mqttv5.0", "mqttV5.0", "http", "mqt", "mqttx", "amqp", "mqttv4.0", "MQTT"}
+var c17Protos = []string{"mqttv3x1", "mqttv3.1x1", "mqttv5a0", "mqttV3", "", "mqtt", "mqttv3.1", "mqttv3.1.1", "mqttV3.1.1", "mqttv5.0", "mqttV5.0", "http", "mqt", "mqttx", "amqp", "mqttv4.0", "MQTT"}
 
 func (p *c17Prop) Gen(r *Rng, i int, tier string) interface{} {
 	if i%10 == 9 {
@@ -173,6 +174,11 @@ func (p *c17Prop) Gen(r *Rng, i int, tier string) interface{} {
 		}
 		c.Frames = append(c.Frames, f)
 		total += f
+		if r.Chance(12) {
+			c.Texts = append(c.Texts, 1+r.Intn(2*b+2))
+		} else {
+			c.Texts = append(c.Texts, 0)
+		}
 	}
 	// read sizes: mostly the same buffer size (as bufio does), sometimes varying
 	vary := r.Chance(30)
@@ -230,6 +236,10 @@ func (p *c17Prop) Run(ci interface{}) interface{} {
 				}
 				pos += f
 				sent += f
+				if next-1 < len(c.Texts) && c.Texts[next-1] > 0 {
+					// a data frame that is not binary: the protocol layer must never see its payload
+					_ = wsutil.WriteClientText(conn, []byte(strings.Repeat("z", c.Texts[next-1])))
+				}
 				if err := wsutil.WriteClientBinary(conn, buf); err != nil {
 					// the handler finished its reads and closed first: not an observation
 					closed = true
